@@ -31,7 +31,7 @@ package hal
 // kernel log's sink - which hands it everything buffered so far, in order, and empties the
 // early buffer (kfmt.SetOutputSink's contract) - THEN is switched to the active state
 //@ func linkTTYToConsole()
-//@   property C16
+//@   property C16 C18
 //@   requires !isnil(devices.activeTTY) && !isnil(devices.activeConsole) && kfmt.wfRB(&kfmt.earlyPrintBuffer)
 //@   at entry: ghost links = links + 1
 //@   modifies links, attaches, attachT, attachC, stateSets, stateT, stateArg, kfmt.outputSink, kfmt.ringBuffer.rIndex, elems(uint8), kfmt.outLen, kfmt.out
